@@ -326,4 +326,70 @@ def c10(ctx):
                       "TLC validates against Layer A: results of calls overlapping Close must be an error or a legal linearized effect, the directory reopens with exactly the linearized contents; fault/stuck/leak/race events are never accepted")
 
 
-CHECKS = {"C07": c07, "C10": c10, "C02": c02, "C11": c11, "C12": c12, "C05": c05, "C01": c01, "C03": c03, "C04": c04, "C06": c06, "C09": c09}
+def describe_lock(rej):
+    """Signature of a rejected lock recording."""
+    chunk, at = rej["chunk"], rej["at"]
+    evs = []
+    for l in chunk[:at]:
+        try:
+            evs.append(json.loads(l))
+        except Exception:
+            evs.append({})
+    ev = evs[-1] if evs else {}
+    head = evs[0] if evs else {}
+    sig = "event=%s" % ev.get("e")
+    text = "schedule %s scripts=%s sched=%s: event #%d not explained: %s" % (head.get("id"), head.get("scripts"), head.get("sched"), at, json.dumps(ev)[:300])
+    if ev.get("e") == "lk_ret" and ev.get("op") == "open":
+        p = ev.get("p")
+        if ev.get("ok") and not ev.get("existing"):
+            # which other sessions started and died while this Open call was in progress?
+            inv = max((i for i, e in enumerate(evs[:-1]) if e.get("e") == "lk_inv" and e.get("p") == p and e.get("op") == "open"), default=0)
+            between = evs[inv:-1]
+            started = {e.get("p") for e in between if e.get("e") == "lk_ret" and e.get("op") == "open" and e.get("ok") and e.get("p") != p}
+            died = {e.get("p") for e in between if e.get("e") == "lk_die"}
+            if started & died:
+                sig = "missed-recovery open-overlaps-whole-dead-session"
+            else:
+                sig = "missed-recovery"
+        elif ev.get("ok"):
+            sig = "open-ok-unexplained (second holder or needless recovery)"
+        else:
+            sig = "open-failed-unexplained ek=%s" % ev.get("ek")
+    return sig, text
+
+
+def c13(ctx):
+    q = ctx.quick()
+    ctx.model_check("LockProto.tla", "cfg/lock_verify.cfg" if q else "cfg/lock_verify_deaths.cfg", timeout=1800)
+    ctx.model_check("LockProto.tla", "cfg/lock_pinned.cfg", expect_violation="AtMostOneHolder", timeout=600)
+    ctx.model_check("LockProto.tla", "cfg/lock_verify_recover.cfg", expect_violation="MustRecover", timeout=600)
+    os.makedirs(ctx.path("tmp/lk"), exist_ok=True)
+    nsh = CORES
+    jobs, outs = [], []
+    for i in range(nsh):
+        out = ctx.path("rec-lock-%d.ndjson" % i)
+        outs.append(out)
+        jobs.append(["lock", "-n", "500" if q else "0", "-workers", str(nsh), "-shard", str(i), "-keys", "0", "-dir", ctx.path("tmp/lk"),
+                     "-seed", str(ctx.seed), "-out", out])
+    add_stats(ctx, ctx.vrun_parallel(jobs), "lock-schedules")
+    rejs = ctx.validate(outs, module="TraceLock.tla", cfg="TraceLock.cfg", max_rej=60 if q else 5000)
+    ctx.sample_from(outs[0], 2)
+    # database level: sequential session chains (clean / unclean ends, competing Open while open)
+    outs2 = seq_jobs(ctx, "db-sessions", 4, 4 if q else 30, 60, 8, ALLFS, ["-alt", "-open2"])
+    jobs3, outs3 = fault_jobs(ctx, "crash", 4, 4 if q else 30, 20, 6, ["-epochs", "-open2"])
+    add_stats(ctx, ctx.vrun_parallel(jobs3), "db-crash-chains")
+    rejs2 = ctx.validate(outs2 + outs3)
+    ctx.report_rejections(rejs, describe_lock)
+    ctx.report_rejections(rejs2, describe_generic)
+    h = ctx.cov["harness"]
+    ctx.cov["evaluations"] = h["lock-schedules"].get("schedules", 0)
+    ctx.cov["distinct_nontrivial"] = h["lock-schedules"].get("schedules", 0)
+    ctx.assumptions += ["flock conflicts between separate open file descriptions of one process, so the processes of the model are goroutines parked at the yield hooks between the system calls of fs/os_unix.go and fs/os.go",
+                        "a process death is the kernel closing the descriptor (flock released, file left behind)"]
+    return ctx.finish("model_checking", "LockProto.tla: every interleaving of stat/open/flock/verify/unlink/close (and deaths) of 3 processes x 2 rounds, exhaustive; pinned protocol refuted. "
+                      "Real code: the enumerated interleavings of the system-call steps of 2-3 openers with a closing or dying holder (5 scenarios; quick: seeded 500 per scenario, thorough: all) executed in-process on a real directory through the yield hooks; "
+                      "each schedule's open/close/die results validated by TLC as a linearizable lock object (TraceLock.tla: at most one owner, unclean => recovered). "
+                      "Database level: sequential session chains on all file systems with clean and unclean ends and competing Opens (locked error, directory listing unchanged), validated against Layer A")
+
+
+CHECKS = {"C13": c13, "C07": c07, "C10": c10, "C02": c02, "C11": c11, "C12": c12, "C05": c05, "C01": c01, "C03": c03, "C04": c04, "C06": c06, "C09": c09}
